@@ -495,7 +495,7 @@ def _relabel_mutations_node(
 
     insert_position = edges_left[insert_index]
     remove_position = edges_right[remove_index]
-    sequence_length = remove_position[-1]
+    sequence_length = remove_position[-1] if num_edges > 0 else 0.0
 
     # a mutation whose node is in no edge at its position (an isolated sample, or a
     # site beyond the last edge) has no piece to move to and keeps its node
